@@ -259,3 +259,10 @@ pub fn has_composite_cluster(s: &str) -> bool {
     use unicode_width::UnicodeWidthChar;
     s.graphemes(true).any(|g| g.chars().filter(|c| c.width().unwrap_or(0) > 0).count() > 1)
 }
+
+/// does the text contain a grapheme cluster of more than one character (base + combining
+/// marks, emoji sequences, ...)?
+pub fn has_multichar_cluster(s: &str) -> bool {
+    use unicode_segmentation::UnicodeSegmentation;
+    s.graphemes(true).any(|g| g.chars().count() > 1 && g != "\r\n")
+}
